@@ -13,5 +13,5 @@ import O2P.Props.C11
 import O2P.Props.C12
 import O2P.Props.C13
 import O2P.Props.C14
-import O2P.Props.C15
+import O2P.Props.C15Full
 import O2P.Props.C16
